@@ -17,7 +17,7 @@ func clusterRun(c *Cluster, spec *runSpec) {
 func (c *Cluster) finalChecks(spec *runSpec) {
 	c.harvestAll()
 	for _, n := range c.nodes {
-		if n.started && !n.byz {
+		if n.started && !n.byz && !n.isObserver {
 			c.checkC02(n, true)
 		}
 	}
